@@ -18,9 +18,9 @@ from vlib import glist
 PID = "C15"
 # Defect flags (bits of Gov.defects_of_bits) of findings that are still OPEN in known_findings.d/C15.json.
 # 1 zero_open | 2 underflow | 4 avail_voted | 8 special_updavail | 16 unlock_closed | 32 logout_inc.
-# The first five were repaired in /repo (known_findings.d/C15.json "fixed"); 32 is recorded as an open
-# finding, so the current tree may behave like the model with or without that flag.
-CFG_CURRENT = int(os.environ.get("C15_CFG", "32"))
+# All six were repaired in /repo (known_findings.d/C15.json "fixed"): the current tree must match the
+# repaired model exactly.
+CFG_CURRENT = int(os.environ.get("C15_CFG", "0"))
 FLAG_NAMES = {1: "zero_open", 2: "underflow", 4: "avail_voted", 8: "special_updavail", 16: "unlock_closed", 32: "logout_inc"}
 
 CLAUSES = {1: "a finished proposal changed (status / tallies / end reason / ballots)",
